@@ -56,6 +56,10 @@ func genCase(engine, mode, tier string, r *Rng, id string, i int) []string {
 		}
 		e := genSeq(r, mode, steps)
 		return []string{e.Line(id, "SEQ")}
+	case "agg":
+		return []string{genAgg(r, tier).Line(id, "AGG")}
+	case "rsm":
+		return []string{genRsm(r, tier).Line(id, "RSM")}
 	case "grp":
 		return []string{genGrp(r, tier).Line(id, "GRP")}
 	}
